@@ -7,10 +7,6 @@ pub mod stubs;
 #[macro_use]
 pub mod util;
 #[cfg(kani)]
-mod c23;
+mod c26;
 #[cfg(kani)]
-mod c24;
-#[cfg(kani)]
-mod c25;
-#[cfg(kani)]
-mod c34;
+mod c27;
